@@ -98,16 +98,53 @@ build_tsan() {
   return 0
 }
 
+build_fuzz() {
+  local d="$TD/fuzz-src"
+  rm -rf "$d/fuzz/fuzz_targets" "$d/src"
+  mkdir -p "$d/fuzz" "$d/src" "$d/fuzz/.cargo"
+  cp "$V/fuzz/Cargo.toml" "$d/Cargo.toml"
+  cp "$V/fuzz/src/lib.rs" "$d/src/lib.rs"
+  cp -r "$V/fuzz/fuzz/fuzz_targets" "$d/fuzz/fuzz_targets"
+  sed "s#path = \"../../harness\"#path = \"$V/harness\"#" "$V/fuzz/fuzz/Cargo.toml" > "$d/fuzz/Cargo.toml"
+  [ -f "$d/fuzz/Cargo.lock" ] || cp "$V/harness/Cargo.lock" "$d/fuzz/Cargo.lock"
+  if [ "$REPO" != "/repo" ]; then
+    printf 'paths = ["%s/jmespath"]\n[net]\noffline = true\n' "$REPO" > "$d/fuzz/.cargo/config.toml"
+  else
+    printf '[net]\noffline = true\n' > "$d/fuzz/.cargo/config.toml"
+  fi
+  local log="$TD/build-fuzz.log"
+  ( cd "$d" && cargo +nightly fuzz build --release ) >"$log" 2>&1
+  if [ $? -eq 0 ]; then
+    export JMV_FUZZ_DIR="$d"
+  else
+    echo "note: fuzz targets failed to build (see $log); the fuzz sub-checks will be inconclusive" >&2
+  fi
+  return 0
+}
+
 build_for() { # property id
   build_variant default "" "" || return 2
   case "$1" in
-    C16) build_variant sync "" "sync" || return 2
-         build_sendsync
-         [ "${2:-quick}" = "thorough" ] && build_tsan ;;
+    C16) build_sendsync
+         if ! build_variant sync "" "sync" 2>"$TD/build-sync.err"; then
+           # The harness shares expressions between threads, so it cannot compile when the
+           # types are not Send + Sync.  If the library itself builds with `sync` and only the
+           # obligations fail, that is the type-level violation: report it through the
+           # default build (which carries the type-level layer only).
+           if ( cd "$REPO/jmespath" && cargo build --offline --features sync --target-dir "$TD/libsync" ) >"$TD/build-libsync.log" 2>&1 \
+              && [ "$JMV_SENDSYNC" != "ok" ]; then
+             export JMV_C16_TYPELEVEL_ONLY=1
+           else
+             cat "$TD/build-sync.err" >&2
+             return 2
+           fi
+         fi
+         [ "${2:-quick}" = "thorough" ] && [ -z "${JMV_C16_TYPELEVEL_ONLY:-}" ] && build_tsan ;;
     C17) build_variant sync "" "sync" || return 2
          build_variant spec "+nightly" "spec" || return 2
          build_variant specsync "+nightly" "spec,sync" || return 2 ;;
     C18) build_jp || return 2 ;;
+    C01|C03|C04|C05) [ "${2:-quick}" = "thorough" ] && build_fuzz ;;
     all) build_variant sync "" "sync" || return 2
          build_sendsync
          build_variant spec "+nightly" "spec" || return 2
@@ -144,7 +181,7 @@ case "$cmd" in
     build_for "$cmd" "$tier" || exit 2
     export VERIF_TIER=$tier
     bin="$TD/default/release/check"
-    [ "$cmd" = "C16" ] && bin="$TD/sync/release/check"
+    [ "$cmd" = "C16" ] && [ -z "${JMV_C16_TYPELEVEL_ONLY:-}" ] && bin="$TD/sync/release/check"
     exec "$bin" "$cmd" --tier "$tier"
     ;;
   *)
